@@ -48,21 +48,40 @@ def _raise(excname):
     raise mk()
 
 
-def fault_case(cfg, base_answer, k, excname, resume=True):
-    """Solve with the k-th evaluation raising; returns messages"""
+def fault_case(cfg, base_answer, k, excname, resume=True, prefail=False):
+    """Solve with the k-th evaluation raising; returns messages.
+    prefail: the very first evaluation attempt fails too (outside the statement, k >= 2, and not judged), Solve is
+    called again and it is the failure at the k-th evaluation of that second Solve that is judged."""
+    shift = 1 if prefail else 0
+
     def answer(i, y):
-        if i == k:
+        if prefail and i == 1:
+            raise RuntimeError("injected failure of the first evaluation")
+        if i - shift == k:
             _raise(excname)
-        return base_answer(i, y)
+        return base_answer(i - shift, y)
     from mc.env import Recorder
     told = []      # every trial a listener was told about: (x, point, value)
     rec = Recorder(on_iter=lambda pts, sol: told.extend(
         (p.GetX(), np.array(p.GetY().floatVariables, dtype=float), p.GetZ()) for p in pts))
-    run = tree.make_run(dict(cfg, eps=0.0, itersLimit=k + 3), answer, listeners=[rec] if k % 2 == 0 else [])
+    listeners = [rec] if k % 2 == 0 else []
+    if k % 3 == 0:
+        # a shipped console listener rides along on every third fault position (its output is swallowed)
+        from iOpt.method.listener import ConsoleFullOutputListener
+        listeners.append(ConsoleFullOutputListener(mode=("full", "custom", "result")[(k // 3) % 3], iters=2))
+    run = tree.make_run(dict(cfg, eps=0.0, itersLimit=k + 3), answer, listeners=listeners)
+    if prefail:
+        try:
+            run.solve()
+        except BaseException:
+            return []      # a failure of the very first evaluation is outside the statement (k >= 2): not judged
+        told.clear()
     try:
         sol = run.solve()
     except BaseException as e:
-        return [f"{excname} raised by evaluation {k} escaped from Solve as {type(e).__name__}"]
+        return [f"{excname} raised by evaluation {k} escaped from Solve as {type(e).__name__}"
+                + (" (second Solve; the first evaluation attempt of the first Solve had failed too)" if prefail else "")
+                + (" (console listener attached)" if k % 3 == 0 else "")]
     msgs = []
     log = run.problem.log
 
@@ -134,6 +153,11 @@ def block(task):
             for m in fault_case(cfg, tree.scripted(node, alphabet), k, exc):
                 viol.append(dict(driver="tree", cfg=cfg, alphabet=alphabet, choices=list(node), k=k, exc=exc, message=m,
                                  sig=dict(kind="fault")))
+            if len(node) <= 3 and exc in ("Exception", "KeyboardInterrupt"):
+                stats["runs"] += 1
+                for m in fault_case(cfg, tree.scripted(node, alphabet), k, exc, prefail=True):
+                    viol.append(dict(driver="tree", cfg=cfg, alphabet=alphabet, choices=list(node), k=k, exc=exc, prefail=True,
+                                     message="after a failed first evaluation and a second Solve: " + m, sig=dict(kind="fault")))
         if len(viol) > 30:
             break
     return stats, viol
@@ -197,4 +221,4 @@ def replay(rec):
     cfg = rec["cfg"]
     if rec["driver"] == "long":
         return long_case(dict(cfg=cfg, k=rec["k"], exc=rec["exc"]))
-    return fault_case(cfg, tree.scripted(rec["choices"], rec["alphabet"]), rec["k"], rec["exc"])
+    return fault_case(cfg, tree.scripted(rec["choices"], rec["alphabet"]), rec["k"], rec["exc"], prefail=bool(rec.get("prefail")))
